@@ -45,6 +45,8 @@ Fixpoint as_scmd (fuel : nat) (s : sx) : option scmd :=
     | L [I 19%Z; b] => option_map SSetTypeAhead (as_bool b)
     | L [I 20%Z; h; b] => match as_nat h, as_bool b with Some h, Some b => Some (SHandlerAsk h b) | _, _ => None end
     | L [I 21%Z; h] => option_map SHandlerWait (as_nat h)
+    | L [I 22%Z; c; k] => two SConnect c k
+    | L [I 23%Z; c; I p] => option_map (fun c => SEmit c p) (as_nat c)
     | L [I 15%Z; k; t; e] =>
       match as_nat k, as_list (as_scmd f) t, as_list (as_scmd f) e with
       | Some k, Some t, Some e => Some (SIfCount k t e) | _, _, _ => None end
@@ -75,7 +77,7 @@ Definition as_spec12 (s : sx) : option screen_spec :=
       | Some pn, Some ir, Some ns, Some sk, Some pg, Some a0 =>
         Some {| sc_setup := su; sc_refresh := rf; sc_show := sh; sc_closed := cl; sc_input := it;
                 sc_input_default := (dc, dr); sc_prompt_none := pn; sc_input_required := ir;
-                sc_no_separator := ns; sc_skip_check := sk; sc_pages := pg; sc_answer0 := a0 |}
+                sc_no_separator := ns; sc_skip_check := sk; sc_pages := pg; sc_answer0 := a0; sc_custom := [] |}
       | _, _, _, _, _, _ => None
       end
     | _, _, _, _, _, _, _ => None
@@ -83,10 +85,20 @@ Definition as_spec12 (s : sx) : option screen_spec :=
   | _ => None
   end.
 
-(* the 11-element form (sessions recorded before [sc_answer0] existed): no initial answer attribute *)
+(* the 11-element form (sessions recorded before [sc_answer0] existed): no initial answer attribute;
+   the 13-element form carries the screen's own signal callbacks (a list of command lists) *)
 Definition as_spec (s : sx) : option screen_spec :=
   match s with
   | L [su; rf; sh; cl; it; d; pn; ir; ns; sk; pg] => as_spec12 (L [su; rf; sh; cl; it; d; pn; ir; ns; sk; pg; I 0%Z])
+  | L [su; rf; sh; cl; it; d; pn; ir; ns; sk; pg; a0; cu] =>
+    match as_spec12 (L [su; rf; sh; cl; it; d; pn; ir; ns; sk; pg; a0]), as_list as_cmds cu with
+    | Some sp, Some cu => Some {| sc_setup := sc_setup sp; sc_refresh := sc_refresh sp; sc_show := sc_show sp;
+                                  sc_closed := sc_closed sp; sc_input := sc_input sp; sc_input_default := sc_input_default sp;
+                                  sc_prompt_none := sc_prompt_none sp; sc_input_required := sc_input_required sp;
+                                  sc_no_separator := sc_no_separator sp; sc_skip_check := sc_skip_check sp;
+                                  sc_pages := sc_pages sp; sc_answer0 := sc_answer0 sp; sc_custom := cu |}
+    | _, _ => None
+    end
   | _ => as_spec12 s
   end.
 
